@@ -110,6 +110,21 @@ CLAIMED.update({
             "Trusted: the ~100-line table model, the SimStorage shadow map, the assumption that current versions advance only at block boundaries."),
 })
 
+CLAIMED.update({
+    "C26": ("vm", "DESIGN.md §6 C26, §4.1",
+            "deterministic simulation with gas-exhaustion injection: observer replica single-steps generated call trees under default / unit / randomized-distinct / sparse-zero gas schedules and drawn gas limits; an independent schedule evaluator predicts the ordered charges of every instruction",
+            "Per step: $cgas ≤ $ggas, $ggas never increases, consumed gas == sum of the prescribed charges (fixed, dependent, storage hot/cold read, write, new-byte, new-balance-entry stages), out-of-gas zeroes $cgas and takes exactly the remaining context gas, other panics consume a prefix of the stages; CALL forwarding = min(requested, remaining) with the remainder saved in the frame; unspent gas credited on return; ScriptResult.gas_used == limit − $ggas. Sampling, not enumeration.",
+            OBS_NOTE + " The opcode→cost-field table is transcribed from the pinned implementation and the fuel-asm documentation (the FuelVM specification is not available offline) and frozen in /verif; ECAL's cost is the host handler's."),
+    "C27": ("vm", "DESIGN.md §6 C27, §4.1",
+            "deterministic simulation with fault injection: observer replica matches every Transfer / TransferOut / Call / Mint / Burn / MessageOut receipt with the balance movement seen at the storage seam and through the verif_balances hook, checks the in-memory balance table against the internal free balances after every step, and closes a per-asset ledger equation at the end of every transaction",
+            "Per step: balance deltas (contract balances from recorded ContractsAssets writes, free balances from the hook) must equal exactly the movements announced by that step's receipts; memory balance table == internal balances. Per transaction: inputs + contracts before + minted == outputs + contracts after + burned + unclaimed + fee + messages, in u128. Sampling, not enumeration.",
+            OBS_NOTE + " Hook used: Interpreter::verif_balances (feature verif-hooks). Fee uses the repository's min_gas (C18's territory) and own ceiling arithmetic."),
+    "C33": ("vm", "DESIGN.md §6 C33, §4.1",
+            "deterministic simulation with cache-eviction buggify and storage faults: observer replica predicts, from a plain per-contract key-value map, the registers, $err, destination bytes, panics and post-state of all 13 storage instructions and compares the whole persistent table after every storage step",
+            "Sequences of legacy and dynamic storage instructions over few overlapping keys (consecutive keys, range ends at 2^256−1), across calls, contracts and transactions; the slot cache is cleared / partially evicted between instructions at seeded points. Sampling, not enumeration.",
+            OBS_NOTE + " Panics outside the map model (memory, gas, reserved register, context) are allowed at any storage instruction."),
+})
+
 PLANNED = {
 }
 
